@@ -54,6 +54,10 @@ CHECKS = {
                 technique="bounded-exhaustive enumeration of (class, field path, value) x codecs over all shipped, test and generated message classes with a byte-equality oracle",
                 text="Every message/struct class of core_defs, tests/test_msg_defs and the generated VALX file x value profiles and per-field alphabets (extremes, -0.0, NaN, empty/max-length strings, control characters, quotes, backslashes, 0x00/0xFF byte arrays) x {bytes, dict, JSON pretty/minified, Message JSON, copy}; byte equality, storage independence of copies, refusal of foreign header versions.",
                 note="Trusted: CPython json; values are built through the validated API only."),
+    "C11": dict(engine="DEFX", level="exploration", ref="DESIGN.md 4/C11",
+                technique="bounded-exhaustive enumeration of definition programs (field sequences) compiled by the real compiler; layouts cross-checked between a reference computation, gcc (offsetof/sizeof/_Alignof on the generated header), ctypes (generated Python classes) and the parser; auto_pad on/off differential",
+                text="Every field sequence up to the length bound over scalars of width 1/2/4/8, arrays, nested structs of alignment 1/2/4/8 (tail-padded or not), arrays of those and field-list reuse, as struct and message; natural alignment, no hidden padding, minimal char-only padding that preserves the user's fields, auto_pad-off accepts iff no padding is needed, and the 65535-byte limit at its boundary.",
+                note="Trusted: gcc x86-64 layout, ctypes; batches of 300 definitions per compiled program."),
 }
 
 ALL = [f"C{i:02d}" for i in range(1, 20)]
